@@ -110,7 +110,7 @@ impl Scenario for ConfigScn {
             let c: white_whale_std::fee_distributor::Config = w.query(&h.fee.distributor, &white_whale_std::fee_distributor::QueryMsg::Config {}).unwrap();
             c.grace_period.u64()
         };
-        let g = CG {
+        let mut g = CG {
             pairs: vec![h.pair.addr.clone()],
             trios: vec![h.trio.addr.clone()],
             vaults: vec![h.vault.vault.clone()],
@@ -118,6 +118,15 @@ impl Scenario for ConfigScn {
             lairs: vec![h.fee.lair.clone()],
             ..Default::default()
         };
+        if self.group == "ramps" {
+            // a trio created at the top of the range (1e6) and already half-way through a ramp down to a tenth of it
+            let mut cx = Cx::default();
+            self.step(w, &h, &mut g, &CAct::TrioCreate { amp: 2, t: 0 }, &mut cx);
+            self.step(w, &h, &mut g, &CAct::TrioRamp { kind: "/10".into() }, &mut cx);
+            self.step(w, &h, &mut g, &CAct::AdvanceBlocks { n: 5_000 }, &mut cx);
+            let c: white_whale_std::pool_network::trio::Config = w.query(g.trios.last().unwrap(), &white_whale_std::pool_network::trio::QueryMsg::Config {}).expect("trio config");
+            assert!(g.trios.len() == 2 && c.initial_amp == 1_000_000 && c.future_amp == 100_000, "ramps root: expected a trio ramping 1e6 -> 1e5, got {:?}", (c.initial_amp, c.future_amp));
+        }
         (h, g)
     }
 
@@ -146,6 +155,14 @@ impl Scenario for ConfigScn {
                         v.push(CAct::TrioCreate { amp, t: 5 });
                     }
                     v.push(CAct::TrioInstantiate { amp });
+                }
+            }
+            "ramps" => {
+                for k in ["/10", "/2", "x2", "x10", "max", "one", "same"] {
+                    v.push(CAct::TrioRamp { kind: k.to_string() });
+                }
+                for n in [1u64, 2_500, 10_000] {
+                    v.push(CAct::AdvanceBlocks { n });
                 }
             }
             "vaults" => {
@@ -272,6 +289,10 @@ impl Scenario for ConfigScn {
                     "max" => 1_000_000,
                     "max+1" => 1_000_001,
                     "x10cap" => (cur * 10).max(1_000_001),
+                    "/10" => cur / 10,
+                    "/2" => cur / 2,
+                    "x2" => cur * 2,
+                    "same" => cur,
                     "zero" => 0,
                     _ => 1,
                 };
